@@ -173,7 +173,10 @@ class Array(DaskMethodsMixin):
             # Fallback to synthetic meta if original is also None
             meta = np.zeros((0,) * self.ndim, dtype=self.dtype)
         # Use self.chunks to preserve nan chunks for unknown-sized operations
-        return from_graph, (
+        from dask_array.io._from_graph import from_persisted
+
+        rebuild = from_graph if getattr(self, "_blocks_are_targets", False) else from_persisted
+        return rebuild, (
             meta,
             self.chunks,
             [],
